@@ -3,7 +3,7 @@
    the code as steps). What no model shows: the Go memory model, sync internals, go-git's thread safety. *)
 From Coq Require Import List Arith Bool.
 Import ListNotations.
-From GB Require Import Conc CacheConc CacheExcerpt.
+From GB Require Import Conc CacheConc CacheExcerpt CachePersist.
 
 (* For every schedule of any number of threads running any cache calls on the repaired cache, from any good
    state: every acknowledged operation occurs exactly once in the final stored history of its bug *)
@@ -59,6 +59,21 @@ Theorem C18_excerpts_fresh_when_done n m progs sched b : let c := run true sched
 Proof. exact (excerpts_fresh_when_done n m progs sched b). Qed.
 Print Assumptions C18_excerpts_fresh_when_done.
 
+(* "the cache agrees with a rebuild", the cache files (what the next process loads instead of reading git): for any
+   number of goroutines, any sequences of successful notifications (entityUpdated: change the excerpt under the write
+   lock, then write(): serialise AND write the file under the read lock) and every schedule, in every state that is
+   reached the file holds the excerpts of the cache, or some goroutine is between its change and its write *)
+Theorem C18_saved_cache_fresh m progs sched : let c := prun sched (pinit m progs) in
+  (forall b, pdisk c b = pmem c b) \/ exists th, In th (pths c) /\ powes th.
+Proof. exact (saved_fresh m progs sched). Qed.
+Print Assumptions C18_saved_cache_fresh.
+
+(* ... once the goroutines are done (or all wait between two calls): the file is the cache; K_C18.C18_allowed *)
+Theorem C18_saved_cache_fresh_when_done m progs sched : let c := prun sched (pinit m progs) in
+  (forall th, In th (pths c) -> pcode th = []) -> forall b, pdisk c b = pmem c b.
+Proof. exact (saved_fresh_when_done m progs sched). Qed.
+Print Assumptions C18_saved_cache_fresh_when_done.
+
 (* Deadlock freedom, general form: threads that take reader/writer locks in strictly increasing rank (hence never
    re-enter one) and finish holding none can always make progress, for any number of threads *)
 Theorem C18_deadlock_free (ts : list rthread) :
@@ -100,6 +115,15 @@ Theorem C18_excerpts_fresh_refuted_split_notify : exists sched,
   quietb c && staleb (fst c) 1 = true.
 Proof. exact split_notify_stale. Qed.
 Print Assumptions C18_excerpts_fresh_refuted_split_notify.
+
+(* a write() that gives the read lock back once the excerpts are serialised, before the file is written: two
+   notifications about two different bugs, everybody done, and the file does not have the second change *)
+Theorem C18_saved_cache_fresh_refuted_unlocked_write : exists sched,
+  let c := prun sched (fun _ => 0, fun _ => 0,
+                       [mkpthr (notify_unlocked (1, 7)) (fun _ => 0) false; mkpthr (notify_unlocked (2, 9)) (fun _ => 0) false]) in
+  pdoneb c && pstaleb c 2 = true.
+Proof. exact unlocked_write_stale. Qed.
+Print Assumptions C18_saved_cache_fresh_refuted_unlocked_write.
 
 (* by design: the lock of an evicted instance is never released; the holder of such a handle waits for ever *)
 Theorem C18_evicted_handle_refuted : exists sched,
